@@ -547,6 +547,33 @@ std::string handle(const std::string& op, Args& a)
 		});
 #undef HZ_STEP
 	}
+	if(op == "c04.rowcol")	 // A*v, w*A, Outer(w,v), v.v against the products of the corresponding row / column matrices
+	{
+		Matrix A = rd_mat(a);
+		Vector v = rd_vec(a), w = rd_vec(a);
+		a.end();
+		return run_if(v.Size() == A.Columns() && w.Size() == A.Rows() && A.Rows() > 0 && A.Columns() > 0, [&](Out& o) {
+			Matrix colv(v.Size(), 1), roww(1, w.Size()), colw(w.Size(), 1), rowv(1, v.Size());
+			for(unsigned i = 0; i < v.Size(); i++)
+				colv[i][0] = rowv[0][i] = v[i];
+			for(unsigned i = 0; i < w.Size(); i++)
+				roww[0][i] = colw[i][0] = w[i];
+			Vector Av = A * v;
+			Matrix Ac = A * colv;
+			bool e1	  = Ac.Rows() == Av.Size() && Ac.Columns() == 1;
+			for(unsigned i = 0; e1 && i < Av.Size(); i++)
+				e1 = Av[i] == Ac[i][0];
+			Vector wA = w * A;
+			Matrix rA = roww * A;
+			bool e2	  = rA.Columns() == wA.Size() && rA.Rows() == 1;
+			for(unsigned i = 0; e2 && i < wA.Size(); i++)
+				e2 = wA[i] == rA[0][i];
+			bool e3 = Outer_Vector_Product(w, v) == colw * rowv;
+			Matrix d = rowv * colv;
+			bool e4	 = d.Rows() == 1 && d.Columns() == 1 && d[0][0] == v.Dot(v) && d[0][0] == v * v;
+			o << (int) e1 << (int) e2 << (int) e3 << (int) e4;
+		});
+	}
 	throw BadOp();
 }
 }	// namespace hz
